@@ -13,13 +13,13 @@ namespace RedunModel.Migrate
 open RedunModel.MigrateOps RedunModel.Generated.Migrations
 
 /-- sqlite storage values. A DATETIME text `YYYY-MM-DD HH:MM:SS[.ffffff]` is split into the whole-second
-part and the fractional part (`""` or `".ffffff"`). -/
+part (as seconds since the epoch, UTC) and the fractional part as written (`""` or `".ffffff"`). -/
 inductive Val where
   | null
   | int (i : Int)
   | text (s : String)
   | blob (hex : String)
-  | ts (whole frac : String)
+  | ts (sec : Int) (frac : String)
   deriving DecidableEq, Repr, Inhabited
 
 abbrev Row := List (String × Val)
@@ -100,10 +100,18 @@ def applyEffects (db : Db) : List Effect → Except String Db
 
 /-! ### the data migrations (hand-written meaning, keyed by the hash of their text) -/
 
-/-- sqlite `datetime(x, 'utc')` with TZ=UTC: re-renders the timestamp as `YYYY-MM-DD HH:MM:SS`
-(fractional seconds dropped); NULL stays NULL; an unparsable value gives NULL. -/
+/-- first four fractional digits (zero padded) as a number: `".678901" ↦ 6789`, `"" ↦ 0` -/
+def first4 (frac : String) : Nat :=
+  (((frac.toList.drop 1) ++ ['0', '0', '0', '0']).take 4).foldl (fun acc c => acc * 10 + (c.toNat - 48)) 0
+
+/-- sqlite keeps times in whole milliseconds, rounded: a fraction ≥ .9995 carries into the next second -/
+def roundsUp (frac : String) : Bool := decide (9995 ≤ first4 frac)
+
+/-- sqlite `datetime(x, 'utc')` with TZ=UTC: re-renders the timestamp as `YYYY-MM-DD HH:MM:SS`: the
+fractional seconds are dropped (after rounding to milliseconds, so `.9995` and above give the next second);
+NULL stays NULL; an unparsable value gives NULL. -/
 def dtUtc : Val → Val
-  | .ts w _ => .ts w ""
+  | .ts s f => .ts (if roundsUp f then s + 1 else s) ""
   | _ => .null
 
 /-- `backfill_values_for_lonely_tasks`: a Value row for every Task row that has none. -/
